@@ -135,15 +135,14 @@ def irrBrute (p : Nat) (f : Poly) : Bool :=
   f.length ≥ 2 && !(List.range ((f.length - 1) / 2)).any fun k => hasMonicDivisorDeg p f (k + 1)
 
 /-- ≙ finfields.find_irreducible(p, d) = GFpX(p).next_irreducible(p**d - 1): the next monic
-irreducible polynomial after p^d - 1 in integer order (gfpx.py:493-508 skips multiples of x and
-non-monic candidates; for p = 2, gfpx.py:1114-1121, `a ≤ 1` gives x) -/
+irreducible polynomial after p^d - 1 in integer order (gfpx.py:493-508: multiples of X other than X
+itself and non-monic candidates are skipped — all of them reducible or non-monic anyway; p = 2:
+gfpx.py:1114-1121) -/
 def findIrrBrute (p d : Nat) : Poly :=
-  if p == 2 && p ^ d - 1 ≤ 1 then [0, 1]
-  else
-    let ok := fun n =>
-      let f := ofInt p n
-      (p == 2 || n % p != 0) && f.getLast? == some 1 && irrBrute p f
-    ofInt p (leastFrom ok (p ^ d) (2 * p ^ (d + 1) + 8))
+  let ok := fun n =>
+    let f := ofInt p n
+    f.getLast? == some 1 && irrBrute p f
+  ofInt p (leastFrom ok (p ^ d) (2 * p ^ (d + 1) + 8))
 
 /-! ### SecFld -/
 
